@@ -338,9 +338,13 @@ func newCallMode(o *opts) *callMode {
 	C := int64(len(m.cs))
 	m.tts = buildTextTemplates()
 	ds := digitStrings()
-	m.tstr = append(ds, truncations()...)
+	tr, nBasic := truncations()
+	m.tstr = append(ds, tr...)
 	for ti, t := range m.tts {
-		n := len(m.tstr)
+		n := len(ds) + nBasic
+		if wantsExtra[t.name] {
+			n = len(m.tstr)
+		}
 		if digitsOnly[t.name] {
 			n = len(ds)
 		}
